@@ -5552,6 +5552,7 @@ class TensorDictBase(MutableMapping):
             is_leaf=_NESTED_TENSORS_AS_LISTS_NONTENSOR,
             out=self if inplace else None,
             device=device,
+            propagate_lock=True,
         )
         result._consolidated = {"storage": storage, "metadata": metadata_dict}
         if filename is not None:
